@@ -5,7 +5,11 @@ fails = json.load(open(sys.argv[1]))
 mx = int(sys.argv[2]) if len(sys.argv) > 2 else 25
 print(len(fails), "failing executions,", len({f[0] for f in fails}), "distinct keys")
 def toks(f):
-    t = set(x for x in re.split(r"[>|, ()\[\]']+", f[0].split(":", 2)[-1]) if x)
+    if f[0].startswith(("c06:", "c12:")):
+        t = set(re.findall(r"[A-Z]\[\w+\]", f[0]))
+    else:
+        t = set(x for x in re.split(r"[>|, ()\[\]']+", f[0].split(":", 2)[-1]) if x)
+    t.add("detail=" + re.sub(r"[0-9]+", "N", f[4])[:40])
     t.add("klass=" + f[3]); t.add("cfg=%s" % f[1]); t.add("host=" + f[2])
     return t
 rest = [(f, toks(f)) for f in fails]
@@ -13,7 +17,7 @@ n = 0
 while rest and n < mx:
     cnt = collections.Counter()
     for f, t in rest:
-        cnt.update(x for x in t if not x.startswith(("klass=", "cfg=", "host=")))
+        cnt.update(x for x in t if not x.startswith(("klass=", "cfg=", "host=", "detail=")))
     if not cnt: break
     tok, c = cnt.most_common(1)[0]
     grp = [f for f, t in rest if tok in t]
